@@ -479,6 +479,52 @@ def _posixpath_probe(tier="quick", seed=0):
                         if PackURI.from_rel_ref(base_, rel_.target_ref) != rel_.target_part.partname:
                             bad = bad or "deck with slide parts named 7, 3, 9, %s%s: relationship %s of %s has reference %r, its target is named %s" % (
                                 label_, " (saved once before)" if save_first else "", rel_.rId, getattr(src_, "partname", "/"), rel_.target_ref, rel_.target_part.partname)
+    # ... and what is written for a relationship is that reference, character for character: a saved package whose parts have names a URI
+    # would escape resolves every internal Target (joined onto the source's directory, nothing decoded) to a member
+    try:
+        import io as _io2
+        import posixpath as _pp
+        import struct as _st
+        import zipfile as _zf
+        import zlib as _zl
+
+        from lxml import etree as _et
+        from pptx import Presentation as _Prs2
+
+        def _png2(k):
+            raw = b"".join(b"\x00" + bytes((k, 2, 3)) * 2 for _ in range(2))
+            ch = lambda t, d: _st.pack(">I", len(d)) + t + d + _st.pack(">I", _zl.crc32(t + d) & 0xFFFFFFFF)
+            return b"\x89PNG\r\n\x1a\n" + ch(b"IHDR", _st.pack(">IIBBBBB", 2, 2, 8, 2, 0, 0, 0)) + ch(b"IDAT", _zl.compress(raw)) + ch(b"IEND", b"")
+
+        prs3 = _Prs2()
+        odd_names = ["/ppt/media/team%20photo.png", "/ppt/media/company logo [1].png", "/ppt/media/\u00e9t\u00e9 100%.png", "/ppt/media/a+b,c;d=e@2x.png"]
+        for k_, nm_ in enumerate(odd_names):
+            sl3 = prs3.slides.add_slide(prs3.slide_layouts[6])
+            pic3 = sl3.shapes.add_picture(_io2.BytesIO(_png2(k_)), 0, 0)
+            sl3.part.related_part(pic3._pic.blip_rId).partname = PackURI(nm_)
+        b3 = _io2.BytesIO()
+        prs3.save(b3)
+        z3_ = _zf.ZipFile(_io2.BytesIO(b3.getvalue()))
+        members_ = set(z3_.namelist())
+        for n_ in sorted(members_):
+            if not n_.endswith(".rels"):
+                continue
+            d_, f_ = _pp.split(n_)
+            base_ = "/" + _pp.dirname(d_) if f_ != ".rels" else "/"
+            for e_ in _et.fromstring(z3_.read(n_)):
+                if e_.get("TargetMode") == "External":
+                    continue
+                evals += 1
+                t_ = e_.get("Target")
+                resolved = _pp.normpath(_pp.join(base_, t_))
+                if resolved[1:] not in members_:
+                    bad = bad or "saved package: %s of %s has Target %r, which resolves to %r -- not a member (members named like %s)" % (e_.get("Id"), n_, t_, resolved, sorted(m_ for m_ in members_ if "media" in m_)[:2])
+        reopened = _Prs2(_io2.BytesIO(b3.getvalue()))
+        got_names = sorted(str(p_.partname) for p_ in reopened.part.package.iter_parts() if "/media/" in str(p_.partname))
+        if got_names != sorted(odd_names):
+            bad = bad or "re-opened package has media parts %s, saved were %s" % (got_names, sorted(odd_names))
+    except Exception as e:
+        bad = bad or "package with parts named like user files: %r" % (e,)
     ob = {"name": "C19.posixpath_probe", "base": "C19.posixpath_probe", "kind": "bounded", "status": "refuted" if bad else "discharged", "backend": "native", "time": 0, "path": 0}
     if bad:
         ob["replay"] = {"confirmed": True, "witness_class": "packuri-native", "detail": bad}
